@@ -217,6 +217,7 @@ func successReturns(fn *ssa.Function) []*ssa.Return {
 // definitelyError: the value returned at ret is certainly a non-nil error: a fresh error
 // constructor, a global sentinel, or a value that the return is guarded on being != nil.
 func definitelyError(ret *ssa.Return, v ssa.Value) bool {
+	v = unspill(ret, v)
 	for _, r := range roots(v) {
 		if !definitelyErrorRoot(ret, r) {
 			return false
@@ -363,4 +364,24 @@ func isIteratorKey(cl *ssa.Call) bool {
 		}
 	}
 	return len(roots(cc.Value)) > 0
+}
+
+// unspill: in a function with defers go/ssa stores the results into cells, runs the defers and
+// returns loads of the cells; the value returned at this site is the one stored in the same block.
+func unspill(ret *ssa.Return, v ssa.Value) ssa.Value {
+	u, ok := v.(*ssa.UnOp)
+	if !ok || u.Op != token.MUL {
+		return v
+	}
+	al, ok := u.X.(*ssa.Alloc)
+	if !ok {
+		return v
+	}
+	b := ret.Block()
+	for i := len(b.Instrs) - 1; i >= 0; i-- {
+		if st, ok := b.Instrs[i].(*ssa.Store); ok && st.Addr == ssa.Value(al) {
+			return st.Val
+		}
+	}
+	return v
 }
